@@ -12,14 +12,14 @@
 package mcpx
 
 import (
-	"github.com/modelcontextprotocol/go-sdk/jsonrpc"
-	"net/http"
-	"bytes"
 	"bufio"
+	"bytes"
 	"context"
 	"encoding/json"
 	"fmt"
+	"github.com/modelcontextprotocol/go-sdk/jsonrpc"
 	"io"
+	"net/http"
 	"reflect"
 	"strings"
 	"sync"
@@ -32,13 +32,13 @@ import (
 )
 
 type c03Op struct {
-	N    int    `json:"n"`
-	Kind string `json:"kind"` // notify | call | roots (client.AddRoots: notifications/roots/list_changed)
-	Dur  int    `json:"dur_ms"`
-	Gap  int    `json:"gap_ms"` // sender pause before issuing this op
-	Callback bool `json:"callback,omitempty"` // notify: the handler calls back into the peer with its own context before it goes on working
-	WriteMs  int  `json:"write_ms,omitempty"` // roots: the transport takes this long to accept the notification
-	Fault503 bool `json:"fault_503,omitempty"` // notify over HTTP: the POST is answered 503 once
+	N        int    `json:"n"`
+	Kind     string `json:"kind"` // notify | call | roots (client.AddRoots: notifications/roots/list_changed)
+	Dur      int    `json:"dur_ms"`
+	Gap      int    `json:"gap_ms"`              // sender pause before issuing this op
+	Callback bool   `json:"callback,omitempty"`  // notify: the handler calls back into the peer with its own context before it goes on working
+	WriteMs  int    `json:"write_ms,omitempty"`  // roots: the transport takes this long to accept the notification
+	Fault503 bool   `json:"fault_503,omitempty"` // notify over HTTP: the POST is answered 503 once
 }
 
 type c03Spec struct {
@@ -91,7 +91,7 @@ func TestVerifC03(t *testing.T) {
 			"server->client over the same (background context, i.e. one stream), or a raw wire peer that pipelines initialize (slow), notifications/initialized and feature calls without waiting. " +
 			"non-trivial: >=1 notification with duration >0 followed by another message sent before it finishes, and >=1 call with duration >0 overlapped by a later message. distinct = distinct (mode, transport, kind/duration/gap pattern)",
 		MinNontrivial: 100,
-		Assumptions: []string{"zero transport latency under virtual time, so handler start instants are exactly predictable", "handler start order among concurrent calls is not fixed by the statement; only instants and the notification barrier are checked"},
+		Assumptions:   []string{"zero transport latency under virtual time, so handler start instants are exactly predictable", "handler start order among concurrent calls is not fixed by the statement; only instants and the notification barrier are checked"},
 	}
 	vh.Run(t, cfg, func(c *vh.Case) {
 		spec := genC03(c.R)
